@@ -131,14 +131,19 @@ Record wst := {
    fields brought into memory) has no counterpart here: it removes a crash
    of the netCDF library, which the model does not represent. *)
 Record variant := { fx_formula : bool; fx_global : bool; fx_ft : bool; fx_dimname : bool;
-                    fx_dryname : bool }.   (* C17-fix2-1: the dry run keeps the file's own dimension of a bare axis *)
+                    fx_dryname : bool;    (* C17-fix2-1 (1c79b1c): the dry run keeps the file's own dimension of a bare axis *)
+                    fx_names : bool;      (* C17-fix3-2: every variable / dimension name of the dataset is in use *)
+                    fx_norename : bool }. (* C17-fix3-4: the dry run registers the names of the dataset as they are *)
 Definition old_code := {| fx_formula := false; fx_global := false; fx_ft := false; fx_dimname := false;
-                          fx_dryname := false |}.
-(* /repo HEAD at the time of the deepening pass (C17-fix-1..4 applied) *)
+                          fx_dryname := false; fx_names := false; fx_norename := false |}.
+(* /repo as it was before C17-fix2-1 (witness of C17_dry_run_dimension_refuted) *)
 Definition head_code := {| fx_formula := true; fx_global := true; fx_ft := true; fx_dimname := true;
-                           fx_dryname := false |}.
+                           fx_dryname := false; fx_names := false; fx_norename := false |}.
+(* /repo HEAD cbe0f54, third pass: without C17-fix3-2 *)
+Definition head3_code := {| fx_formula := true; fx_global := true; fx_ft := true; fx_dimname := true;
+                            fx_dryname := true; fx_names := false; fx_norename := false |}.
 Definition new_code := {| fx_formula := true; fx_global := true; fx_ft := true; fx_dimname := true;
-                          fx_dryname := true |}.
+                          fx_dryname := true; fx_names := true; fx_norename := true |}.
 
 Record mode := { m_dry : bool; m_post : bool; m_var : variant }.
 
@@ -187,6 +192,13 @@ Definition netcdf_name (base : string) (s : wst) : string * wst :=
     | None => (base, set_err s)
     end
   else (base, upd_names (cons base) s).
+
+(* C17-fix3-4: in the dry run the constructs come from the dataset and their
+   names are the dataset's: a name met again (one variable seen through two
+   constructs, a dimension and a scalar variable of one name) is registered as
+   it is, not replaced by a name that the dataset does not have *)
+Definition netcdf_name_m (m : mode) (base : string) (s : wst) : string * wst :=
+  if m_dry m && fx_norename (m_var m) then (base, upd_names (cons base) s) else netcdf_name base s.
 
 (* ---- file primitives -------------------------------------------------------- *)
 Definition create_dim (m : mode) (n : string) (size : Z) (s : wst) : wst :=
@@ -249,7 +261,7 @@ Definition write_bounds (m : mode) (k : cst) (c : content) (cdims : list string)
       match find (fun d => match k_bdim k with Some n => String.eqb d n | None => true end &&
                            option_eqb Z.eqb (dim_size s d) (Some size)) (w_bdims s) with
       | Some d => (d, s)
-      | None => let '(n, s') := netcdf_name base s in (n, upd_bdims (fun l => l ++ [n]) s')
+      | None => let '(n, s') := netcdf_name_m m base s in (n, upd_bdims (fun l => l ++ [n]) s')
       end in
     let nd := cdims ++ [bdim] in
     let bc := bnd_content b in
@@ -259,7 +271,7 @@ Definition write_bounds (m : mode) (k : cst) (c : content) (cdims : list string)
       let isnew := negb (smem bdim (map fst (w_dimsz s1))) in
       let s2 := if isnew then create_dim m bdim size (upd_dimsz (cons (bdim, size)) s1) else s1 in
       let default := if isnew then (cvar ++ "_bounds")%string else "bounds" in
-      let '(bv, s3) := netcdf_name (match k_bvar k with Some n => n | None => default end) s2 in
+      let '(bv, s3) := netcdf_name_m m (match k_bvar k with Some n => n | None => default end) s2 in
       (* a property is left to the parent only if the parent has it with the same value (commit c07ad3c) *)
       let attrs := filter (fun p => negb (smem (fst p) c17_omit_bounds_props &&
                                           option_eqb String.eqb (prop_of (c_props c) (fst p)) (Some (snd p))))
@@ -279,18 +291,18 @@ Definition write_bounds (m : mode) (k : cst) (c : content) (cdims : list string)
 Definition dimcoord_name (m : mode) (ax : axis) (k : cst) (c : content) (s : wst) : string * wst :=
   if fx_dimname (m_var m) then
     match a_ncdim ax, k_ncvar k with
-    | Some d, None => netcdf_name d s
+    | Some d, None => netcdf_name_m m d s
     | _, _ => match name_of k c None with
-              | Some base => netcdf_name base s
-              | None => netcdf_name "coordinate" s
+              | Some base => netcdf_name_m m base s
+              | None => netcdf_name_m m "coordinate" s
               end
     end
   else
     match name_of k c None with
-    | Some base => netcdf_name base s
+    | Some base => netcdf_name_m m base s
     | None => match a_ncdim ax with
               | Some d => (d, s)
-              | None => netcdf_name "coordinate" s
+              | None => netcdf_name_m m "coordinate" s
               end
     end.
 
@@ -330,7 +342,7 @@ Definition write_scalar (m : mode) (k : cst) (c : content) (s : wst) : string * 
   match find_seen false c0 (Some []) s with
   | Some e => (e_ncvar e, s)
   | None =>
-    let '(nv, s1) := netcdf_name (match name_of k c0 None with Some n => n | None => "scalar" end) s in
+    let '(nv, s1) := netcdf_name_m m (match name_of k c0 None with Some n => n | None => "scalar" end) s in
     let '(extra, s2) := write_bounds m k c0 [] nv s1 in
     (nv, write_var m nv [] c0 (c_props c0) extra s2)
   end.
@@ -341,7 +353,7 @@ Definition write_aux (m : mode) (k : cst) (dims : list string) (s : wst) : strin
   match find_seen false c (Some dims) s with
   | Some e => (e_ncvar e, s)
   | None =>
-    let '(nv, s1) := netcdf_name (match name_of k c None with Some n => n | None => "auxiliary" end) s in
+    let '(nv, s1) := netcdf_name_m m (match name_of k c None with Some n => n | None => "auxiliary" end) s in
     let '(extra, s2) := write_bounds m k c dims nv s1 in
     (nv, write_var m nv dims c (c_props c) extra s2)
   end.
@@ -354,7 +366,7 @@ Definition write_anc (m : mode) (k : cst) (dims : list string) (default : string
   match find_seen true c (Some dims) s with
   | Some e => (e_ncvar e, s)
   | None =>
-    let '(nv, s1) := netcdf_name (match name_of k c None with Some n => n | None => default end) s in
+    let '(nv, s1) := netcdf_name_m m (match name_of k c None with Some n => n | None => default end) s in
     let '(extra, s2) := write_bounds m k c dims nv s1 in
     (nv, write_var m nv dims c (c_props c) extra s2)
   end.
@@ -364,7 +376,7 @@ Definition write_msr (m : mode) (k : cst) (dims : list string) (s : wst) : strin
   match find_seen false c (Some dims) s with
   | Some e => (e_ncvar e, s)
   | None =>
-    let '(nv, s1) := netcdf_name (match name_of k c None with Some n => n | None => "cell_measure" end) s in
+    let '(nv, s1) := netcdf_name_m m (match name_of k c None with Some n => n | None => "cell_measure" end) s in
     (nv, write_var m nv dims c (c_props c) [] s1)
   end.
 
@@ -468,7 +480,7 @@ Definition write_axis (m : mode) (f : field) (dims : list cst) (i : nat) (ax : a
       | Some d => ({| x_a2d := (i, d) :: x_a2d x; x_dimvar := x_dimvar x;
                       x_coords := x_coords x; x_span := x_span x |}, s)
       | None =>
-        let '(nd, s1) := netcdf_name (match a_ncdim ax with Some d => d | None => "dim" end) s in
+        let '(nd, s1) := netcdf_name_m m (match a_ncdim ax with Some d => d | None => "dim" end) s in
         let s2 := create_dim m nd (a_size ax) (upd_dimsz (cons (nd, a_size ax)) s1) in
         ({| x_a2d := (i, nd) :: x_a2d x; x_dimvar := x_dimvar x; x_coords := x_coords x;
             x_span := x_span x ++ [(nd, a_size ax, spanning f i)] |}, s2)
@@ -569,7 +581,7 @@ Definition write_field (m : mode) (f : field) (s : wst) : wst :=
   let '(ancvars, s3) := write_ancs m f x (f_anc f) 0 [] s2 in
   let '(msrs, s4) := write_msrs m x (f_msr f) [] s3 in
   let s5 := write_formula m f dims x ancvars s4 in
-  let '(nv, s6) := netcdf_name (match f_ncvar f with
+  let '(nv, s6) := netcdf_name_m m (match f_ncvar f with
                                 | Some n => n
                                 | None => match prop_of (f_props f) "standard_name" with
                                           | Some n => n | None => "data" end
@@ -795,13 +807,21 @@ Definition w_mode (vr : variant) : mode := {| m_dry := false; m_post := false; m
 Definition dry_run (vr : variant) (e : file) (orig : list field) : wst :=
   log [EClose] (write_fields (dry_mode vr) orig (log [EOpenR] (init e))).
 
+(* the names of the variables and dimensions of the dataset (C17-fix3-2:
+   registered as in use between the two passes, whether or not the dry run
+   came across them) *)
+Definition file_names (e : file) : list string := map v_name (d_vars e) ++ map fst (d_dims e).
+
+Definition register_names (vr : variant) (e : file) (s : wst) : wst :=
+  if fx_names vr then upd_names (fun l => file_names e ++ l) s else s.
+
 Definition append_run (vr : variant) (netcdf4 : bool) (o : gopts) (e : file) (orig new : list field) : wst :=
   if refuse vr netcdf4 orig new then set_err (init e)
   else
     let s1 := dry_run vr e orig in
     if w_err s1 then s1
     else log [EClose] (write_fields (post_mode vr) new
-                         (write_globals (post_mode vr) o new (reopen (log [EOpenA] s1)))).
+                         (write_globals (post_mode vr) o new (reopen (log [EOpenA] (register_names vr e s1))))).
 
 Definition append (vr : variant) (netcdf4 : bool) (o : gopts) (e : file) (orig new : list field) : file * outcome :=
   let s := append_run vr netcdf4 o e orig new in
@@ -813,6 +833,29 @@ Fixpoint append_seq (vr : variant) (netcdf4 : bool) (reread : file -> list field
   match news with
   | [] => e
   | n :: r => append_seq vr netcdf4 reread (fst (append vr netcdf4 (fst n) e (reread e) (snd n))) r
+  end.
+
+(* ---- the mode argument of cfdm.write ---------------------------------------------------- *)
+(* accepted spellings (docstring of cfdm.write): 'w', 'a', and 'r+' as an
+   alias of 'a'; anything else is a ValueError before the file is looked at.
+   The alias is resolved once, before any of the tests on the mode. *)
+Inductive wmode := ModeW | ModeA.
+Definition parse_mode (spelling : string) : option wmode :=
+  if String.eqb spelling "w" then Some ModeW
+  else if String.eqb spelling "a" then Some ModeA
+  else if String.eqb spelling "r+" then Some ModeA
+  else None.
+
+Inductive call_outcome := CAppend (o : outcome) | CBadMode | CNotAppend.
+
+(* a call of cfdm.write on an existing file with the given spelling of the
+   mode; mode 'w' replaces the file and is no concern of this property *)
+Definition write_call (vr : variant) (spelling : string) (netcdf4 : bool) (o : gopts) (e : file)
+           (orig new : list field) : file * call_outcome :=
+  match parse_mode spelling with
+  | None => (e, CBadMode)
+  | Some ModeW => (e, CNotAppend)
+  | Some ModeA => let '(fl, out) := append vr netcdf4 o e orig new in (fl, CAppend out)
   end.
 
 (* cfdm.write(mode='w') to a new file: one pass, global attributes written *)
